@@ -3,12 +3,14 @@ package checks
 import (
 	"context"
 	"encoding/binary"
+	"errors"
 	"fmt"
 	"strings"
 	"time"
 
 	"verifharness/memtr"
 	"verifharness/refbmc"
+	"verifharness/refcodec"
 
 	"github.com/gebn/bmc/pkg/ipmi"
 )
@@ -64,6 +66,9 @@ type ScriptEnv struct {
 	st *scriptState
 	// Filter2 may replace replies while no script is active (handshakes).
 	Filter2 func(req, reply []byte) []byte
+	// Strict makes the BMC refuse (0xCC) requests that violate their request table
+	// (wrong length, reserved bits set), as a strict implementation does.
+	Strict bool
 }
 
 func NewScriptEnv(cfg refbmc.Config, mode memtr.Delivery) *ScriptEnv {
@@ -111,6 +116,11 @@ func (se *ScriptEnv) answer(ev *refbmc.Event) (byte, []byte, bool) {
 		ident = []byte{0xdc}
 	case ev.NetFn == 0x2e && len(body) >= 3:
 		ident = body[:3]
+	}
+	// a strict BMC: a request that violates its table (wrong length, reserved bits set) is
+	// refused whatever the script says
+	if _, perr := refcodec.ParseRequest(ev.NetFn, ev.Cmd, ev.Data); se.Strict && perr != nil && !errors.Is(perr, refcodec.ErrNoTable) {
+		return 0xcc, ident, true
 	}
 	switch {
 	case o == "ok":
